@@ -47,6 +47,11 @@ def generate(tier, rng):
     for lt in ("FixedLifetime", "NormalLifetime", "LogNormalLifetime", "WeibullLifetime", "FoldedNormalLifetime"):
         for dn, dd_ in (("time first", [base["t"], base["r"]]), ("time second", [base["r"], base["t"]]), ("time only", [base["t"]])):
             cases.append(dict(stream="validators", kind="lifetime_ctor", lt=lt, dims=dd_, dname=dn, time="t"))
+    # values held in arrays of another dtype (whole numbers in an integer array, single precision): every result, down to
+    # 0-dimensional ones, is still a numpy array of the shape of its dimensions and can be assigned to
+    for dtype in ("int64", "int32", "float32", "float64"):
+        for dd_ in ([base["t"], base["r"]], [base["r"]], []):
+            cases.append(dict(stream="validators", coq=False, kind="dtype", dtype=dtype, dims=dd_))
     return cases
 
 
@@ -78,6 +83,28 @@ def run_impl(case):
             return dict(kind="ctor", accepted=True)
         except Exception as e:  # noqa
             return dict(kind="ctor", accepted=False, exc=type(e).__name__, msg=str(e)[:120])
+    if case.get("kind") == "dtype":
+        dims = _ds(case["dims"])
+        vals = (np.arange(int(np.prod(dims.shape)) if dims.shape else 1) + 1).reshape(dims.shape).astype(case["dtype"])
+        a = fd.FlodymArray(dims=dims, values=vals)
+        letters = tuple(d["letter"] for d in case["dims"])
+        results = {"a": a, "sum_to(())": a.sum_to(()), "sum_over(all)": a.sum_over(letters), "total+total": a.sum_to(()) + a.sum_to(()),
+                   "total.minimum(total)": a.sum_to(()).minimum(a.sum_to(())), "a+a": a + a, "a*2": a * 2, "-a": -a, "abs(a)": abs(a),
+                   "a.copy()": a.copy(), "a.cast_to(dims)": a.cast_to(dims), "a[...]": a[...]}
+        if letters:
+            results["a.sum_to(first)"] = a.sum_to(letters[:1])
+            results["single element"] = a[{d["letter"]: d["items"][0] for d in case["dims"]}]
+            results["cumsum"] = a.cumsum(letters[0])
+        out = {}
+        for k, r in results.items():
+            o = dict(is_ndarray=isinstance(r.values, np.ndarray), shape=list(getattr(r.values, "shape", ["?"])), want=list(r.dims.shape))
+            try:
+                r[...] = 7
+                o["assign"] = "ok"
+            except Exception as e:  # noqa
+                o["assign"] = type(e).__name__ + ": " + str(e)[:80]
+            out[k] = o
+        return dict(kind="dtype", results=out)
     conc, obs = heapdrv.drive(case["uni"], case["abstract"])
     return dict(kind="history", concrete=conc, obs=obs)
 
@@ -90,6 +117,15 @@ WRONG_SHAPE_OPS = ("new", "set_values")
 
 
 def oracle(case, ob):
+    if case.get("kind") == "dtype":
+        for k, o in ob["results"].items():
+            if not o["is_ndarray"]:
+                return f"{case['dtype']} values over {[d['letter'] for d in case['dims']]}: the values of {k} are not a numpy array"
+            if o["shape"] != o["want"]:
+                return f"{case['dtype']} values: {k} has values of shape {o['shape']} under dimensions of shape {o['want']}"
+            if o["assign"] != "ok":
+                return f"{case['dtype']} values: assigning a number to {k} raised {o['assign']}"
+        return None
     if case.get("kind") == "stock_ctor":
         must_reject = case["variant"] != "same"
         if must_reject and ob["accepted"]:
